@@ -132,6 +132,33 @@ func localByteArray(fn *ssa.Function, n int64) *ssa.Alloc {
 		}
 	})
 	if count != 1 {
+		// several local arrays: the one whose value is stored into a field named "header" (the
+		// header of the message being built), if that singles one out
+		var hdr *ssa.Alloc
+		nh := 0
+		eachInstr(fn, func(in ssa.Instruction) {
+			st, ok := in.(*ssa.Store)
+			if !ok {
+				return
+			}
+			fa, ok := st.Addr.(*ssa.FieldAddr)
+			if !ok || fieldOf(fa).Name() != "header" {
+				return
+			}
+			if u, ok := st.Val.(*ssa.UnOp); ok && u.Op == token.MUL {
+				if a, ok := u.X.(*ssa.Alloc); ok {
+					if arr, ok := derefType(a.Type()).Underlying().(*types.Array); ok && arr.Len() == n {
+						if hdr != a {
+							nh++
+						}
+						hdr = a
+					}
+				}
+			}
+		})
+		if nh == 1 {
+			return hdr
+		}
 		return nil
 	}
 	return found
